@@ -120,6 +120,18 @@ static int stub_resolve_inum(sqfs_dir_reader_t *rd, sqfs_u32 inode, sqfs_u64 *re
 	return 0;
 }
 
+/* libc: cbmc 6.11 ships no model of strnlen */
+size_t strnlen(const char *s, size_t maxlen)
+{
+	size_t i;
+
+	for (i = 0; i < maxlen; ++i) {
+		if (s[i] == '\0')
+			break;
+	}
+	return i;
+}
+
 void sqfs_free(void *ptr)
 {
 	free(ptr);
@@ -152,7 +164,8 @@ void harness(void)
 	rd->super.root_inode_ref = verif_nd_u64("root_ref");
 	rd->flags = verif_nd_u32("rd.flags");
 	for (i = 0; i < PLEN; ++i) {
-		path[i] = (char)verif_nd_u8("path.byte");
+		sqfs_u8 c = verif_nd_u8("path.byte");
+		path[i] = c < 128 ? (char)c : (char)((int)c - 256);
 		VERIF_ASSUME(path[i] != '\0');
 	}
 	path[PLEN] = '\0';
